@@ -420,3 +420,35 @@ PROPS["C19"] = dict(
          "every case",
     assumptions=["element types have sizes that are multiples of 8 (unrounded List/Tree layouts)"],
 )
+
+PROPS["C08"] = dict(
+    harness="c08_dispatch.c", level="exploration",
+    technique="runtime differential oracle: independent scan of the raw type record vs every lookup API, exhaustive "
+              "over built-in type x class x member, random lookup histories with white-box cache resets, run-time "
+              "types with counting stubs, 16-thread cold-cache lookups; ASan+UBSan",
+    level_text="Exploration, exhaustive over the built-in matrix: all 40 built-in type objects and the 30 class "
+               "objects x 30 classes x every member offset x {type_instance, instance, type_implements, implements, "
+               "(type_)implements_method, (type_)method} cold, warm and in reverse order; cast to own / other type; "
+               "random histories of lookups with caches reset at random; run-time types with 0,1,2,15,16,17,100,255,"
+               "256 and random numbers of instances in random order (built-in and 300 synthetic classes), every "
+               "public dispatcher called on objects of those types with counting stubs (exactly the declared member "
+               "runs, otherwise ClassError and nothing runs); 257 instances must raise; 16 threads looking up the "
+               "same cold caches behind a barrier.",
+    level_note="The three lazily written fields (cache slot, memoised class pointer, header type of static types) "
+               "are written with the same value by every thread; results are checked, the benign writes are not "
+               "treated as violations.",
+    quick=[("asan", 16, 120)],
+    thorough=[("asan", 16, 900), ("plain", 16, 3000)],
+    exhaustive=False,
+    floors={"quick": {"cells_checked": 20000, "type_objects_in_matrix": 70, "casts_checked": 60, "runtime_types": 100,
+                      "runtime_types_with_200_or_more_instances": 5, "runtime_types_with_no_instance": 1,
+                      "dispatches_to_declared_member": 500, "dispatches_to_empty_member": 500,
+                      "dispatches_to_missing_class": 500, "concurrent_cold_start_trials": 200,
+                      "random_lookup_histories": 50, "oversized_type_attempts": 1, "terminal_reproducer_runs": 1}},
+    rule="case = a run-time type with a random instance list and all its dispatcher calls, or a random history of "
+         "200-600 lookups over all known types (cold or warm), or 10-40 concurrent cold-start trials; the built-in "
+         "matrix is enumerated completely by shard 0; distinct = hash of the case description; non-trivial = every "
+         "case",
+    assumptions=["fake objects (a header naming the type in front of zeroed bytes) stand in for instances of types "
+                 "whose constructors need arguments; no method is ever invoked on them except counting stubs"],
+)
